@@ -49,7 +49,7 @@ func dmix(z uint64) uint64 {
 }
 
 func (o *OrderedDigest) Add(i int, d uint64) { o.acc ^= dmix(dmix(uint64(i)) ^ d) }
-func (o *OrderedDigest) String() string     { return fmt.Sprintf("%016x", o.acc) }
+func (o *OrderedDigest) String() string      { return fmt.Sprintf("%016x", o.acc) }
 
 func strDigest(s string) uint64 {
 	h := uint64(0xcbf29ce484222325)
